@@ -8,6 +8,8 @@ NOT_YET = {}
 _TB = ("Trusted: Lean kernel + propext/Classical.choice/Quot.sound; hand-written models (checked against the code by the "
        "correspondence engine on every run, not assumed); generators and canonicalisers. ")
 ENGINES = [
+    {"name": "engrep", "path": "go/cmd/corr/eng.go", "serves_properties": ["C04", "C12"],
+     "kind_free_text": "repetition: each generated case 13x on fresh WAFs; all outcomes equal each other and the Lean model"},
     {"name": "eng", "path": "go/cmd/corr/eng.go", "serves_properties": ["C01", "C02", "C04", "C08", "C09", "C12", "C17"],
      "kind_free_text": "differential: structured rule sets + requests + API call sequences on the real WAF vs the Lean engine model (profiles per property)"},
     {"name": "body", "path": "go/cmd/corr/body.go", "serves_properties": ["C10"],
@@ -23,6 +25,37 @@ _ENG_NOTE = (_TB + "Operators and transformations are parameters of the engine t
              "the driver instantiates them with the C14/C15 models. Regex keys, @rx, body processors, multiphase build are "
              "outside the engine model.")
 CLAIMED = {
+    "C01": dict(
+        text="Lean 4 theorems over the engine model: key selection returns exactly the entries whose key equals the selector "
+             "up to ASCII case (well-formed collections, preserved by Add/Set/Remove), exclusions and counts are exact, the "
+             "match data of a link are exactly the accepted candidates of the selected values in order (multiMatch included), "
+             "negation is the complement, a rule is recorded iff every link matched in order with the concatenated data, and a "
+             "phase appends fired ids as a sublist of the phase-filtered configuration order. Tied to /repo by `eng`.",
+        note=_ENG_NOTE, ref="6/C01", engine="eng"),
+    "C04": dict(
+        text="Lean 4 theorems: for any permutation of the selected values (the runtime's map order) the link's match data are "
+             "a permutation, firing and the number of action runs are equal, and any observation on which the per-match effect "
+             "commutes is equal. Tied to /repo by `engrep` (13 repetitions per case on fresh WAFs must agree with each other "
+             "and with the model) and `eng`.",
+        note=_ENG_NOTE, ref="6/C04", engine="engrep,eng"),
+    "C09": dict(
+        text="Lean 4 theorems: the state after a link is the left fold of 'update MATCHED_*, then run every non-disruptive "
+             "action once' over exactly the link's matches, in order (so once per match, macros expanded at that moment); "
+             "setvar assign/delete single-step lemmas; HIGHEST_SEVERITY is lowered to the minimum by MatchRule only when the "
+             "rule fired; the disruptive action runs once per completed chain. Tied to /repo by `eng` (profile acct).",
+        note=_ENG_NOTE, ref="6/C09", engine="eng"),
+    "C12": dict(
+        text="Lean 4 theorem C12_cache_transparent over a model of transformArg with its cache: for every cache content "
+             "satisfying the entry invariant, every key collision pattern, every prefix hit, the value handed to the operator "
+             "is the rule's own transformation list applied to the current value, and the invariant is preserved. Tied to "
+             "/repo by `eng` (profile cache) and `engrep`.",
+        note=_ENG_NOTE, ref="6/C12", engine="eng,engrep"),
+    "C17": dict(
+        text="Lean 4 theorems: the rules loop over the full list equals the loop over the list with removed ids filtered out "
+             "(skip counting, markers, allow included), for any removal set recorded in the transaction; ranges equal their "
+             "enumeration; a run-time target removal equals the rule written with the extra !VAR:key and touches no other "
+             "variable. Tied to /repo by `eng` (profile ctl).",
+        note=_ENG_NOTE, ref="6/C17", engine="eng"),
     "C02": dict(
         text="Lean 4 theorems over the engine model for every rule set, request and API call sequence of any length: an "
              "interrupted phase 1-4 evaluates nothing further; with an interruption in place every later non-logging call "
